@@ -219,25 +219,62 @@ func c06P3(l *core.Ledger, eps []*entryPoint) {
 						if !ok {
 							continue
 						}
-						// entry value must be the send loop's sent counter
-						isSent := false
-						for _, e := range ph.Edges {
-							if sp, ok := e.(*ssa.Phi); ok && sp.Block() == ep.loop.head {
-								if c, isC := phiEntryEdge(ep.loop, sp).(*ssa.Const); isC && c.Value != nil && constant.Sign(c.Value) == 0 {
-									isSent = true
-								}
+						// the send loop's sent counter: a phi of the send loop's head that starts at 0
+						isSentCounter := func(v ssa.Value) bool {
+							sp, ok := v.(*ssa.Phi)
+							if !ok || sp.Block() != ep.loop.head {
+								return false
 							}
+							c, isC := phiEntryEdge(ep.loop, sp).(*ssa.Const)
+							return isC && c.Value != nil && constant.Sign(c.Value) == 0
 						}
-						dec := false
+						isOne := func(v ssa.Value) bool {
+							c, ok := v.(*ssa.Const)
+							return ok && c.Value != nil && constant.Compare(c.Value, token.EQL, constant.MakeInt64(1))
+						}
+						isZero := func(v ssa.Value) bool {
+							c, ok := v.(*ssa.Const)
+							return ok && c.Value != nil && constant.Sign(c.Value) == 0
+						}
+						var cond *ssa.BinOp
+						condPos := true
+						if ifi, ok := h.Instrs[len(h.Instrs)-1].(*ssa.If); ok {
+							v, pos := condOf(ifi)
+							cond, _ = v.(*ssa.BinOp)
+							condPos = pos
+						}
+						// (i) count down from the sent counter while > 0 (or != 0)
+						isSent, dec, cmp := false, false, false
 						for _, e := range ph.Edges {
-							if b, ok := e.(*ssa.BinOp); ok && b.Op == token.SUB && b.X == ssa.Value(ph) {
+							if isSentCounter(e) {
+								isSent = true
+							}
+							if b, ok := e.(*ssa.BinOp); ok && b.Op == token.SUB && b.X == ssa.Value(ph) && isOne(b.Y) {
 								dec = true
 							}
 						}
-						cmp := false
-						if ifi, ok := h.Instrs[len(h.Instrs)-1].(*ssa.If); ok {
-							if b, ok := ifi.Cond.(*ssa.BinOp); ok && b.X == ssa.Value(ph) && b.Op == token.GTR {
-								cmp = true
+						if cond != nil && condPos && cond.X == ssa.Value(ph) && (cond.Op == token.GTR || cond.Op == token.NEQ) && isZero(cond.Y) {
+							cmp = true
+						}
+						// (ii) count up from 0 while < the sent counter (or != it)
+						if !(isSent && dec && cmp) {
+							from0, inc, lt := false, false, false
+							for _, e := range ph.Edges {
+								if isZero(e) {
+									from0 = true
+								}
+								if b, ok := e.(*ssa.BinOp); ok && b.Op == token.ADD && b.X == ssa.Value(ph) && isOne(b.Y) {
+									inc = true
+								}
+							}
+							if cond != nil && condPos && cond.X == ssa.Value(ph) && (cond.Op == token.LSS || cond.Op == token.NEQ) && isSentCounter(cond.Y) {
+								lt = true
+							}
+							if cond != nil && condPos && cond.Y == ssa.Value(ph) && cond.Op == token.GTR && isSentCounter(cond.X) {
+								lt = true
+							}
+							if from0 && inc && lt {
+								isSent, dec, cmp = true, true, true
 							}
 						}
 						if isSent && dec && cmp {
